@@ -4,6 +4,7 @@ from __future__ import annotations
 
 import ast
 import itertools
+import re
 from typing import Dict, List, Optional, Set, Tuple
 
 from ..flow import AnalysisError, Flow, Resolver
@@ -651,5 +652,34 @@ def r20_9(ctx):
              "not the one Kconfig uses", g.loc(crossed[0])) if crossed else ctx.ok(construct, g.loc()))
 
 
+def r20_10(ctx):
+    """R20.10 the documented "Symbol can be set when" condition is the prompt condition: write_menu_item() derives it from
+    node.prompt[1], which after finalisation is `prompt's own if AND visible-if of the enclosing menus AND dependencies`;
+    node.dep alone leaves the first two out and the documentation promises an option can be set where Kconfig hides it."""
+    from .common import expand_locals
+    repo = ctx.repo
+    f = repo.func(f"{DOC}:write_menu_item")
+    ctx.analysed(f.qual)
+    construct = "write_menu_item/`can be set when` is computed from the prompt condition"
+    sites = [n for n in ast.walk(f.node) if isinstance(n, ast.Assign) and len(n.targets) == 1 and isinstance(n.targets[0], ast.Name)
+             and "can_be_set" in n.targets[0].id and isinstance(n.value, ast.Call)]
+    if not sites:
+        secs = [n for n in ast.walk(f.node) if isinstance(n, ast.Constant) and isinstance(n.value, str) and "can be set when" in n.value]
+        if secs:
+            ctx.ok(construct, f.loc(secs[0]), nontrivial=False, note="section present, condition not held in a can_be_set* local")
+        else:
+            ctx.ok(construct, f.loc(), nontrivial=False, note="no such section")
+        return
+    for s in sites:
+        src = expand_locals(f.node, s.value)
+        if "prompt[1]" in src:
+            ctx.ok(construct, f.loc(s))
+        elif re.search(r"\.dep\b", src) or "direct_dep" in src:
+            ctx.bad(construct, f"`{src[:80]}`: the dependencies alone - the prompt's own `if` and the `visible if` of the enclosing menus are left out, "
+                    "the documented condition holds where the option cannot be set", f.loc(s))
+        else:
+            ctx.ok(construct, f.loc(s), nontrivial=False, note="condition source not recognised")
+
+
 def rules():
-    return [("R20.9", r20_9, 2), ("R20.8", r20_8, 5), ("R20.7", r20_7, 3), ("R20.6", r20_6, 4), ("R20.1", r20_1, 8), ("R20.2", r20_2, 3), ("R20.4", r20_4, 5), ("R20.3", r20_3, 7), ("R20.5", r20_5, 3)]
+    return [("R20.10", r20_10, 1), ("R20.9", r20_9, 2), ("R20.8", r20_8, 5), ("R20.7", r20_7, 3), ("R20.6", r20_6, 4), ("R20.1", r20_1, 8), ("R20.2", r20_2, 3), ("R20.4", r20_4, 5), ("R20.3", r20_3, 7), ("R20.5", r20_5, 3)]
